@@ -228,7 +228,7 @@ class Extractor:
         body = self.v8_push_unchecked(body, fname)
         contract, entry = [], []
         loop_head, loop_start, loop_end = {}, {}, {}
-        befores, afters, replaces, tails = [], [], [], []
+        befores, afters, replaces, tails, outlines, strips = [], [], [], [], [], []
         for kind, arg, txt in sub:
             if kind == "|":
                 contract.append(txt)
@@ -242,12 +242,32 @@ class Extractor:
                 loop_end.setdefault(int(arg), []).append(txt)
             elif kind == "tail":
                 tails.append(txt)
+            elif kind == "outline":
+                outlines.append((arg, txt))
+            elif kind == "strip":
+                strips.append(arg)
             elif kind == "before":
                 befores.append((arg, txt))
             elif kind == "after":
                 afters.append((arg, txt))
             elif kind == "replace":
                 replaces.append((arg, txt))
+        for pat in strips:
+            n_ = snip_count(body, pat)
+            body = snip_re(pat).sub("", body)
+            self.log.append({"rule": "strip", "fn": fname, "before": pat + " (%d occurrences)" % n_, "after": "", "note": "attribute on a statement; no run-time meaning"})
+        for (a_snip, b_snip), new in outlines:
+            if snip_count(body, a_snip) != 1 or snip_count(body, b_snip) != 1:
+                raise vf.Undecided("lost anchor: outline range `%s` .. `%s` in %s (occurrences %d, %d; need 1, 1)" % (a_snip, b_snip, fname, snip_count(body, a_snip), snip_count(body, b_snip)))
+            ia = snip_re(a_snip).search(body).start()
+            ib = snip_re(b_snip).search(body).start()
+            if ib <= ia:
+                raise vf.Undecided("lost anchor: outline range out of order in %s" % fname)
+            outlined_text = body[ia:ib]
+            body = body[:ia] + new + "\n        " + body[ib:]
+            self.log.append({"rule": "V5-block", "fn": fname, "before": "statement block from `%s` up to (not including) `%s` (%d lines)" % (a_snip, b_snip, outlined_text.count("\n")),
+                             "after": new, "note": "the block is kept in the source but NOT verified here; its effect is the assumed contract of the ext_ function, discharged by the Kani obligation named in the unit",
+                             "outlined_sha256": __import__("hashlib").sha256(outlined_text.encode()).hexdigest()[:16]})
         for old, new in replaces:
             if old.startswith("ALL:"):
                 old = old[4:]
@@ -352,6 +372,16 @@ class Extractor:
                 i += 1
                 while i < n and not lines[i].strip().startswith("//@endfn"):
                     s2 = lines[i].strip()
+                    m4 = re.match(r"//@outline\s+`([^`]*)`\s*\.\.\s*`([^`]*)`\s*=>\s*`([^`]*)`", s2)
+                    if m4:
+                        sub.append(("outline", (m4.group(1), m4.group(2)), m4.group(3)))
+                        i += 1
+                        continue
+                    m5 = re.match(r"//@strip\s+`([^`]*)`", s2)
+                    if m5:
+                        sub.append(("strip", m5.group(1), ""))
+                        i += 1
+                        continue
                     m3 = re.match(r"//@tail\|\s?(.*)$", s2)
                     if m3:
                         sub.append(("tail", None, m3.group(1)))
